@@ -14,6 +14,7 @@ for c in man["checks"]:
     spec = checklib.load_spec(c["property_id"])
     mods = spec["lean_props"] if isinstance(spec["lean_props"], list) else [spec["lean_props"]]
     targets += mods + spec.get("lean_extra", [])
+    if checklib.digest_module(c["property_id"]): targets.append(checklib.digest_module(c["property_id"]))
     for part in checklib.parts_of(spec):
         if part.get("driver"): targets.append(part["driver"])
         if part.get("harness"): pkgs.append("./" + part["harness"])
@@ -25,11 +26,12 @@ targets = sorted(set(targets)); pkgs = sorted(set(pkgs))
 subprocess.call(["go", "build", "-tags", "verif", "./tools/..."], cwd="harness")
 for c in man["checks"]:
     spec = checklib.load_spec(c["property_id"])
-    if spec.get("regen"):
+    if spec.get("regen") or checklib.digest_module(c["property_id"]):
         ctx = checklib.Ctx(c["property_id"], "quick", 1)
         os.makedirs(ctx.scratch, exist_ok=True)
         try:
-            fails = spec["regen"](ctx) or []
+            fails = (spec["regen"](ctx) if spec.get("regen") else None) or []
+            fails += checklib.regen_digest(ctx)
             if fails: print("setup: regeneration for", c["property_id"], "reported", len(fails), "failure(s) (left to the check)", flush=True)
         except Exception as e:
             print("setup: regeneration for", c["property_id"], "raised", repr(e), "(left to the check)", flush=True)
